@@ -557,6 +557,11 @@ def c03(tier):
         for sc in rl.small_trees(structured=structured)[:2]:
             rl.sweep(binary, sc, "edit", ["kill_before", "kill_after"], batch, v, follow="recover",
                      only_ops=("tmp.create", "tmp.write", "tmp.rename"))
+    # ... and with TMPDIR on another file system (nothing can be moved into place: no source byte may change)
+    sc = rl.small_trees(structured=False)[0]
+    sc.kw["tmp_on_other_fs"] = True
+    sc.name += "-xdev"
+    rl.sweep(binary, sc, "edit", ["kill_before", "kill_after", "ENOSPC"], batch, v, follow="recover")
     batch.judge(v, {"C03"})
     v.cov["rule"] = ("every Rewrite.tla case (contents of <= N units of byte width 1-4 x every set of insertion points) rendered as "
                      "statements whose literals start at those points; statement layouts incl. already-referenced ones; Hostile.tla "
